@@ -112,6 +112,7 @@ def gen_e2e(rng):
         ops.append([rng.choice([100, 1000, 3000]), 'down'])
         ops.append([rng.choice([30000, 45000, 70000, 70000, 130000]), 'wait'])
         protect = set()
+        pend = set()                      # keys of what is pending: ('dev', n) / ('port', pid, n) / ('value', pid)
         for _ in range(rng.randint(1, 6)):
             if rng.random() < 0.3:
                 keep = copy.deepcopy(st.ports)
@@ -124,11 +125,72 @@ def gen_e2e(rng):
                 e = rand_edit(rng, st)
                 if e:
                     ops.append([rng.choice([0, 100, 2000])] + e)
+                    pend |= edit_keys(e)
                     if e[0] in ('mv', 'ma'):
                         protect.add(e[1])
+        # an edit landing inside the reconnect sequence: while the device answers one of its requests
+        if rng.random() < 0.5:
+            specs = [{'m': 'GET', 'p': '/ports'}, {'m': 'GET', 'p': '/device'}]
+            if any(k[0] == 'dev' for k in pend):
+                specs += [{'m': 'PATCH', 'p': '/device'}] * 2
+            if any(k[0] == 'port' for k in pend):
+                specs += [{'m': 'PATCH', 'p': '/ports/[^/]+'}] * 2
+            if any(k[0] == 'value' for k in pend):
+                specs += [{'m': 'PATCH', 'p': '/ports/[^/]+/value'}]
+            e = fresh_edit(rng, st, pend)
+            if e:
+                ops.append([0, 'at', rng.choice(specs), e])
+                pend |= edit_keys(e)
         ops.append([rng.choice([0, 500, 3000]), 'up'])
         ops.append([0, 'sync'])
+        # the slave is online again: further edits (of other items) must each be sent once, and nothing else with them
+        if rng.random() < 0.6:
+            n = 0
+            for _ in range(rng.randint(1, 2)):
+                prefer = [k[1] for k in pend if k[0] == 'port' and k[1] in st.ports]
+                e = fresh_edit(rng, st, pend, prefer=prefer, kinds=('ma', 'ma', 'md'))
+                if e:
+                    ops.append([rng.choice([500, 2000])] + e)
+                    pend |= edit_keys(e)
+                    n += 1
+            if n:
+                ops.append([500, 'sync'])
     return job
+
+
+def edit_keys(e):
+    if e[0] == 'mv':
+        return {('value', e[1])}
+    if e[0] == 'ma':
+        return {('port', e[1], slave_name(n)) for n in e[2]}
+    return {('dev', n) for n in e[1]}
+
+
+def fresh_edit(rng, st, pend, prefer=(), kinds=('ma', 'ma', 'mv', 'md')):
+    """an edit of an item that is not in pend (so that every item is edited once per script phase)"""
+    for _ in range(12):
+        k = rng.choice(kinds)
+        ids = list(prefer) * 3 + list(st.ports)
+        if k == 'md':
+            n = rng.choice(['location', 'location', 'note'])
+            if ('dev', n) not in pend:
+                return ['md', {n: 'L%d' % rng.randint(0, 99)}]
+        elif k == 'mv' and ids:
+            pid = rng.choice(ids)
+            p = st.ports[pid]
+            if p['writable'] and p['enabled'] and ('value', pid) not in pend:
+                return ['mv', pid, c12.rand_value(rng, p['type'])]
+        elif ids:
+            pid = rng.choice(ids)
+            p = st.ports[pid]
+            names = ['display_name', 'persisted'] + (['unit'] if p['type'] == 'number' else []) + (['gain'] if 'gain' in p else [])
+            names = [n for n in names if ('port', pid, n) not in pend]
+            if names:
+                n = rng.choice(names)
+                v = {'display_name': 'later %d' % rng.randint(0, 99), 'persisted': rng.random() < 0.5,
+                     'unit': rng.choice(['kW', 'mA']), 'gain': rng.randint(0, 100)}[n]
+                return ['ma', pid, {n: v}]
+    return None
 
 
 def gen_micro(rng):
@@ -171,6 +233,7 @@ def gen_micro(rng):
             else:
                 e = rand_edit(rng, st)
                 if e[0] == 'mv':
+                    steps += [['tick'], ['drain']]      # the remote value queue is empty when a value is written offline
                     steps.append(['write_value', e[1], e[2]])
                 elif e[0] == 'ma':
                     for n, v in e[2].items():
@@ -348,9 +411,11 @@ def carries(it, rq):
     return same(body[it[1]], it[2])
 
 
-def push_problems(mode_poll, items, received):
-    """-> list of (kind, detail)"""
+def push_problems(mode_poll, items, received, window=(), online=False):
+    """-> list of (kind, detail).  window items: exactly once too, but not bound to precede the refresh; online: no refresh rule"""
     out = []
+    ordered = [] if online else list(items)
+    items = list(items) + list(window)
     for it in items:
         t = [r for r in received if targets(it, r)]
         c = [r for r in received if carries(it, r)]
@@ -358,7 +423,7 @@ def push_problems(mode_poll, items, received):
             out.append(('pushed-once', {'item': list(it), 'requests_about_it': t}))
     refreshed = False
     for r in received:
-        if refreshed and any(targets(it, r) for it in items):
+        if refreshed and any(targets(it, r) for it in ordered):
             out.append(('before-refresh', {'request': r}))
         if r[0] == 'GET' and (r[1] == '/ports' or (not mode_poll and r[1] == '/device')):
             refreshed = True
@@ -379,25 +444,41 @@ def push_problems(mode_poll, items, received):
     return out
 
 
+def _last_items(edits):
+    items = {}
+    for e in edits:
+        for it in edit_items(e):
+            items.pop(item_key(it), None)
+            items[item_key(it)] = it
+    return list(items.values())
+
+
 def episodes(job, res):
-    """per sync: (sync index, items, received requests, pending checks)"""
+    """per sync: what was edited since the previous sync and what the device received meanwhile.
+    kind 'reconnect': edits made while the slave was offline (items) and edits that landed while the reconnect sequence was in
+    progress (window: started by an `at` trigger, i.e. while a request of that sequence was in flight);
+    kind 'online': only edits made while the slave was online; kind 'mixed': not judged"""
     out = []
     prev_op = -1
     marks = res.get('op_marks', [])
     for k, s in enumerate(res.get('syncs', [])):
         eds = [e for e in res.get('edits', []) if prev_op < e['op'] < s['op']]
-        off = [e for e in eds if is_offline_edit(e)]
-        items = {}
-        for e in off:
-            for it in edit_items(e):
-                items.pop(item_key(it), None)
-                items[item_key(it)] = it
-        online_edits = [e for e in eds if not is_offline_edit(e) and e['result'][0] in ('ok', 'accepted')]
-        start = marks[eds[0]['op']][0] if eds and eds[0]['op'] < len(marks) else s['req_index']
+        good = [e for e in eds if e['result'][0] in ('ok', 'accepted')]
+        window = [e for e in good if e.get('in_flight')]
+        off = [e for e in good if not e.get('in_flight') and is_offline_edit(e)]
+        onl = [e for e in good if not e.get('in_flight') and e['online_before'] and e['online_after']]
+        other = [e for e in good if e not in window and e not in off and e not in onl]
+        first = min([e['op'] for e in eds] or [s['op']])
+        start = marks[first][0] if first < len(marks) else s['req_index']
         received = [r[1:4] for r in res['requests'][start:s['req_index']] if r[2].rstrip('/') != '/listen']
         received = [[m, p.rstrip('/') or '/', b] for m, p, b in received]
-        out.append({'sync': k, 'items': list(items.values()), 'received': received, 'offline_edits': off,
-                    'clean': not online_edits and s.get('quiescent', False), 'sync_obs': s})
+        kind = ('mixed' if other or (onl and (off or window)) else 'online' if onl else 'reconnect')
+        items, win = _last_items(off), _last_items(window)
+        if {item_key(i) for i in items} & {item_key(i) for i in win}:
+            kind = 'mixed'            # the same item edited offline and again during the reconnect: two requests are right
+        out.append({'sync': k, 'kind': kind, 'items': items if kind != 'online' else _last_items(onl), 'window': win,
+                    'received': received, 'offline_edits': off,
+                    'clean': kind != 'mixed' and s.get('quiescent', False), 'sync_obs': s})
         prev_op = s['op']
     return out
 
@@ -453,9 +534,9 @@ def e2e_problems(job, res):
                 out.append({'kind': kind, 'detail': d, 'sync': ep['sync']})
         if not ep['clean']:
             continue
-        for kind, d in push_problems(mode_poll, ep['items'], ep['received']):
+        for kind, d in push_problems(mode_poll, ep['items'], ep['received'], ep['window'], online=ep['kind'] == 'online'):
             it = d.get('item') or []
-            out.append({'kind': kind, 'detail': d, 'sync': ep['sync'],
+            out.append({'kind': kind, 'detail': d, 'sync': ep['sync'], 'phase': ep['kind'],
                         'item': {'port': 'port-attr', 'value': 'port-value', 'dev': 'device-attr'}.get(it[0] if it else None)})
         sp = still_pending(ep['sync_obs'])
         if sp:
@@ -485,8 +566,14 @@ def spec_cases(pool, job, res):
             continue
         reqs = [enc_preq(pool, *r) for r in ep['received']]
         reqs = [r for r in reqs if r is not None]
-        out.append(('(SPush %s %s %s)' % (coq.boolean(mode_poll), coq.lst(ep['items'], lambda it: enc_item(pool, it)),
-                                          coq.lst(reqs)), ('push', ep['sync'])))
+        enc = lambda its: coq.lst(its, lambda it: enc_item(pool, it))          # noqa: E731
+        if ep['kind'] == 'online':
+            out.append(('(SOnline %s %s)' % (enc(ep['items']), coq.lst(reqs)), ('push', ep['sync'])))
+        elif ep['window']:
+            out.append(('(SPush2 %s %s %s %s)' % (coq.boolean(mode_poll), enc(ep['items']), enc(ep['window']), coq.lst(reqs)),
+                        ('push', ep['sync'])))
+        else:
+            out.append(('(SPush %s %s %s)' % (coq.boolean(mode_poll), enc(ep['items']), coq.lst(reqs)), ('push', ep['sync'])))
         sp = [n for _i, l in still_pending(ep['sync_obs']) for n in l]
         out.append(('(SNothingPending %s)' % coq.lst(sp, pool.s), ('after', ep['sync'])))
     return out
@@ -638,6 +725,12 @@ def run_e2e_batch(ctx, res, jobs, label, tags, max_reports=4):
         p1 = probs[0]
         eps = episodes(small, rr) if 'syncs' in rr else []
         key = {'kind': p1['kind'], 'item': p1.get('item'), 'mode': small['mode']}
+        if p1.get('phase') and p1['phase'] != 'reconnect':
+            key['phase'] = p1['phase']
+        if p1['kind'] == 'pushed-once' and any(e.get('in_flight') for e in rr.get('edits', [])) and \
+                any(item_key(tuple(p1['detail'].get('item') or ())) == item_key(i) for ep in (episodes(small, rr) if 'syncs' in rr else [])
+                    for i in ep['window']):
+            key['phase'] = 'during-reconnect'
         if p1['kind'] == 'pushed-once':
             rq = p1['detail'].get('requests_about_it') or []
             key['cause'] = ('request-refused-by-http-client' if not rq and any(
